@@ -326,8 +326,17 @@ def transform(ex, src):
             if n < 1 or n > len(cl):
                 raise LostAnchor("%s: closure %d not found (%d closures)" % (ex.anchor, n, len(cl)))
             st, bo, bc = cl[n - 1]
-            text = text[:st] + rep + text[bc + 1:]
-            record["transformations"].append("T7 closure %d replaced by %r (its body is verified separately as a lifted function)" % (n, rep))
+            # `{name?fallback}`: a captured variable the enclosing function may no longer declare (a change
+            # that stops using it); the fallback keeps the text well-formed so the lifted closure's contract
+            # is still decided instead of ending in a front-end error
+            def _cap(mo):
+                nm, fb = mo.group(1), mo.group(2)
+                declared = re.search(r"\blet\s+(mut\s+)?%s\b" % re.escape(nm), text[:st]) or \
+                    re.search(r"[(,]\s*(mut\s+)?%s\s*:" % re.escape(nm), text[:st])
+                return nm if declared else fb
+            rep2 = re.sub(r"\{(\w+)\?([^{}]*)\}", _cap, rep)
+            text = text[:st] + rep2 + text[bc + 1:]
+            record["transformations"].append("T7 closure %d replaced by %r (its body is verified separately as a lifted function)" % (n, rep2))
     if ex.verbatim or it.kind != "fn":
         text = re.sub(r"\bpub\s*\(\s*crate\s*\)", "pub", text)
         for old, new, cnt in ex.rewrites:
@@ -392,14 +401,19 @@ def transform(ex, src):
     smsk = mask(sig)
     par = 0
     arrow = -1
+    seen_params = False
     for idx in range(len(smsk) - 1):
         ch = smsk[idx]
         if ch in "([<":
             par += 1 if ch != "<" else 0
         elif ch in ")]":
             par -= 1
+            if par == 0:
+                seen_params = True
         if par == 0 and smsk[idx:idx + 2] == "->":
             arrow = idx
+            if seen_params:
+                break  # the return arrow is the first one after the parameter list (later ones belong to `where` bounds)
     where = re.search(r"\bwhere\b", smsk[arrow:] if arrow >= 0 else smsk)
     if arrow >= 0:
         wpos = arrow + where.start() if where else len(sig)
